@@ -512,3 +512,7 @@ def run(ctx):
             ctx.ok('R-AXISPERVAR', qn, w9, 'axis looked up inside the per-variable loop')
     ctx.assumptions.append('numpy indexing: integers and sequences are advanced indices once a sequence is present; advanced indices are broadcast '
                            'together and, when separated by a slice, the broadcast axis moves to the front (numpy indexing documentation)')
+    # ---- R-PASSMASK: variables the string forms pass through keep their mask
+    from .. import lints as _lp
+    ctx.rule('R-PASSMASK', 'variables that an operation passes through unchanged keep their mask: the converter copy does not fill an in-memory masked target')
+    _lp.converter_pass_through(ctx, 'R-PASSMASK', [('core/_functions.py', 'slice_dim')])
